@@ -188,6 +188,59 @@ def trace_features(traces):
     return f
 
 
+def corrupt(trace, rng):
+    """One field of an accepted trace is falsified in a way that cannot yield another behaviour of the
+    specification; returns (corrupted trace, expected clause prefix) or None."""
+    import copy
+    t = copy.deepcopy(trace)
+    atts = [i for i, e in enumerate(t["events"]) if e["ev"] == "att" and t["prog"][e["c"] - 1]["ingraph"]]
+    if not atts:
+        return None
+    kind = rng.choice(["dup", "drop", "value", "call"])
+    i = rng.choice(atts)
+    e = t["events"][i]
+    if kind == "dup":
+        t["events"].insert(i + 1, copy.deepcopy(e))
+        want = "AtMostOnce"
+    elif kind == "drop":
+        del t["events"][i]
+        want = ""           # later events of dependents or the end event reject it (several clauses possible)
+    elif kind == "value":
+        e["v"] = dict(e["v"], k=("absent" if e["v"]["k"] != "absent" else "v"), c=(0 if e["v"]["k"] != "absent" else e["c"]),
+                      xs=[], mr=[], mg=[])
+        want = ""
+    else:
+        if not e["calls"]:
+            return None
+        e["calls"] = e["calls"][:-1]
+        want = "FiresIff"
+    t["id"] = t["id"] + "/corrupt-" + kind
+    return t, want
+
+
+def selftest(traces, rejected_ids, rng, n):
+    """Binding demonstration (R5): corrupted copies of accepted traces must all be rejected."""
+    ok = [t for t in traces if t["id"] not in rejected_ids and any(e["ev"] == "att" for e in t["events"])]
+    rng.shuffle(ok)
+    bad = []
+    for t in ok:
+        c = corrupt(t, rng)
+        if c:
+            bad.append(c)
+        if len(bad) >= n:
+            break
+    if not bad:
+        raise lib.MachineryError("self-test: no trace could be corrupted")
+    val = lib.validate_traces("DrTrace", "DrTrace.cfg", [b[0] for b in bad], jobs=2)
+    rej = dict((r["id"], r["clause"]) for r in val["rejected"])
+    missed = [b[0]["id"] for b in bad if b[0]["id"] not in rej]
+    wrong = [(b[0]["id"], rej[b[0]["id"]]) for b in bad if b[0]["id"] in rej and b[1] and not rej[b[0]["id"]].startswith(b[1])]
+    if missed or wrong:
+        raise lib.MachineryError("self-test: corrupted traces accepted %s / rejected by an unexpected clause %s"
+                                 % (missed[:3], wrong[:3]))
+    return len(bad)
+
+
 def case_key(c):
     return lib.hashlib.sha1(lib.json.dumps([c["prog"], c["ss"], c.get("arch", False)], sort_keys=True).encode()).hexdigest()
 
@@ -318,6 +371,7 @@ def run(prop, tier):
     bycase = dict((c["id"], c) for c in cases)
     verdict = lib.Verdict(prop, tier)
     rejected_ids = dict((r["id"], r) for r in val["rejected"])
+    nself = selftest(traces, rejected_ids, rng, 40 if tier == "quick" else 400)
     per_case = {}
     for t in traces:
         cid = t["id"].split("/")[0]
@@ -364,7 +418,7 @@ def run(prop, tier):
         samples=samples, assumptions=ASSUMPTIONS,
         extra=dict(configs=plan[tier] + plan.get("model_only", {}).get(tier, []) + ["sim(%d)" % nsim],
                    distinct_programs_emitted=nprog, behaviours_emitted=emitted, behaviours_replayed=len(cases),
-                   invariants_checked_on_model=ALL_INV, situations_exercised_by_recorded_executions=feats,
+                   invariants_checked_on_model=ALL_INV, corrupted_traces_rejected_in_selftest=nself, situations_exercised_by_recorded_executions=feats,
                    other_property_rejections=other, exhaustive=False))
     return verdict.finish(ev)
 
